@@ -139,6 +139,8 @@ func isPrivateReverse(qname string) bool {
 }
 
 func ptrIP(ptr string) net.IP {
+	// DNS names are case-insensitive (and clients may use 0x20 encoding).
+	ptr = strings.ToLower(ptr)
 	if !strings.HasSuffix(ptr, ".arpa.") {
 		return nil
 	}
